@@ -19,10 +19,11 @@ import time
 import vlib
 
 LEVEL = "model_checking"
-PARTS = ["pairs", "matrices", "vectors"]
+PARTS = ["pairs", "matrices", "vectors", "extension"]
 GUARDS = [("det", "CubeLaws"), ("transpose", "TransposeProduct"), ("involution", "TransposeInvolution"),
           ("adj", "AdjugateLaw"), ("mmul", "Associativity"), ("madd", "Distributivity"), ("madd2", "AdditiveGroup"),
-          ("mvec", "ModuleLaws"), ("identity", "IdentityLaw"), ("detmul", "DetMultiplicative"), ("bits", "BitStringLaws")]
+          ("mvec", "ModuleLaws"), ("identity", "IdentityLaw"), ("detmul", "DetMultiplicative"), ("bits", "BitStringLaws"),
+          ("cmod", "DivModLaws"), ("norm", "NormLaws"), ("unit", "VectorOptLaws"), ("interval", "IntervalLaws")]
 
 
 def build():
@@ -32,6 +33,8 @@ def build():
 def model_checks(ctx):
     thorough = ctx.tier == "thorough"
     vlib.tlc_mc(ctx, "MC_LinAlg", "MC_LinAlg_pairs.cfg", timeout=1800)
+    # extension laws (norm, div/mod, optional vectors, unit, intervals): pairs over {-1,0,1} in quick
+    vlib.tlc_mc(ctx, "MC_LinAlg", "MC_LinAlg_pairs_ext.cfg" if thorough else "MC_LinAlg_pairs_ext_quick.cfg", timeout=1800)
     vlib.tlc_mc(ctx, "MC_LinAlg", "MC_LinAlg_triples.cfg" if thorough else "MC_LinAlg_triples_quick.cfg", timeout=2400)
     vlib.tlc_mc(ctx, "MC_LinAlg", "MC_LinAlg_cubes.cfg" if thorough else "MC_LinAlg_cubes_quick.cfg", timeout=1800)
 
@@ -46,6 +49,29 @@ def model_checks(ctx):
         if not refuted:
             raise vlib.Infra("vacuity guard: MC_LinAlg_bug_%s.cfg did not violate %s" % (name, inv))
         ctx.extra.setdefault("vacuity_guards", []).append({"cfg": "MC_LinAlg_bug_%s.cfg" % name, "violates": inv})
+
+
+def in_scope_kinds():
+    """The per-record-kind in_scope flag lives in the judge (spec/LinAlgJudge.tla, InScope ==): only these
+    kinds can produce a VIOLATION; rejections of every other kind are observations."""
+    txt = open(os.path.join(vlib.SPEC, "LinAlgJudge.tla")).read()
+    m = re.search(r"^InScope ==(.*?)^(?:ObservedFields|Infra) ==", txt, re.S | re.M)
+    if not m:
+        raise vlib.Infra("cannot find InScope in the judge module")
+    body = re.sub(r"\\\*[^\n]*", "", m.group(1))
+    return set(re.findall(r'"([^"]+)"', body))
+
+
+def observe(ctx, sig, what):
+    """out-of-statement disagreement: recorded, never a VIOLATION"""
+    obs = ctx.extra.setdefault("observations", {"count": 0, "by_signature": {}, "samples": []})
+    obs["count"] += 1
+    obs["by_signature"][sig] = obs["by_signature"].get(sig, 0) + 1
+    if len(obs["samples"]) < 20 and obs["by_signature"][sig] <= 2:
+        obs["samples"].append(what[:600])
+    if obs["by_signature"][sig] == 1:
+        print("OBSERVATION property=C14 (outside the statement, not a verdict) signature: %s" % sig)
+        print("  what: %s" % what[:500])
 
 
 def signature(b):
@@ -73,6 +99,7 @@ def class_of(e):
         else:
             flat.append(x)
     fl(r)
+    flat = [v for v in flat if v is not None]
     if isinstance(r, bool):
         cat = str(r)
     else:
@@ -81,7 +108,7 @@ def class_of(e):
             e.get("i", -1), e.get("j", -1), cat)
 
 
-OBSERVED = ("r", "st", "log", "elem", "inserted", "calls", "after")
+OBSERVED = ("r", "origin", "radius")
 
 
 def corrupted(x):
@@ -108,7 +135,7 @@ def judge_guard(ctx, module, cfg, chosen):
     bad = {b["l"]: b for b in vlib.judge_trace(ctx, module, cfg, path, boundary_key=None, nchunks=1)}
     for i, k in enumerate(keys):
         b = bad.get(i + 1)
-        if b is None or ("wrong-" + k[1]) not in b["why"]:
+        if b is None or not ({"wrong-" + k[1], "observed-wrong-" + k[1]} & set(b["why"])):
             raise vlib.Infra("judge vacuity guard: corrupted %s of a %s record was not rejected: %s" % (
                 k[1], k[0], json.dumps(chosen[k])[:300]))
     ctx.extra["judge_guard_corrupted_records_rejected"] = len(keys)
@@ -127,7 +154,8 @@ def judge_parts(ctx, results):
                 fn = mm.group(1) if mm else "?"
             kind = {66: "sanitizer", 67: "crash", 68: "hang", 124: "timeout"}.get(rc, "exit%d" % rc)
             san = re.search(r"(ERROR: \w+Sanitizer: [^\n]*|runtime error: [^\n]*)", out)
-            ctx.reject("C14:%s:%s" % (fn, kind),
+            (ctx.reject if fn in in_scope_kinds() or fn == "?" else
+             (lambda sig, what, payload: observe(ctx, sig.replace("C14:", "C14:observed:", 1), what)))("C14:%s:%s" % (fn, kind),
                        "%s during %s (part %s): %s; truncated record: %s" % (
                            kind, fn, part, san.group(1) if san else out[-300:], (tail or "")[:300]),
                        {"part": part, "partial_line": tail})
@@ -162,18 +190,27 @@ def judge_parts(ctx, results):
         line = all_lines[b["l"] - 1]
         if "HARNESS-PRECONDITION" in b["why"] or "unknown-function" in b["why"]:
             raise vlib.Infra("harness record outside the spec's preconditions at line %d of %s: %s" % (b["l"], path, line[:300]))
+        real = [w for w in b["why"] if not w.startswith("observed-")]
+        if not real:
+            observe(ctx, "C14:observed:%s:%s" % (b["op"], "+".join(sorted(w[9:] for w in b["why"]))),
+                    "spec cannot explain %s (%s); record: %s" % (b["op"], ",".join(b["why"]), line[:500]))
+            continue
+        b = dict(b, why=real)
         ctx.reject(signature(b), "spec cannot explain %s (%s); record: %s" % (b["op"], ",".join(b["why"]), line[:600]),
                    {"part": part_of(b["l"]), "record": json.loads(line)})
     chosen = {}
-    for l in all_lines:
+    bad_lines = set(b["l"] for b in bad)
+    for ln, l in enumerate(all_lines, 1):
         e = json.loads(l)
         ctx.count_class(class_of(e))
+        if ln in bad_lines:
+            continue  # the guard corrupts records the judge accepted
         for fld in OBSERVED:
             if fld in e and (e["f"], fld) not in chosen:
                 c = corrupted(e[fld])
                 if c is not None:
                     chosen[(e["f"], fld)] = dict(e, **{fld: c})
-    if not bad:
+    if not bad:  # only on a run without any disagreement (rejected records are listed up to a cap)
         judge_guard(ctx, "LinAlgJudge", "LinAlgJudge.cfg", chosen)
     for first, part in spans:
         for off in (5, 4000):
